@@ -38,12 +38,28 @@ func bootStates(sc *Scenario) func(x *Exec) error {
 			}
 			p := built[pi]
 			objs := planObjects(p)
+			// running-long: the newest recorded activity is the END of objects that started long before the maximum
+			// age (staggered, each later than its parent), next to a sequence that has been Running for as long
+			startOffset := map[string]time.Duration{}
+			if state == "running-long" {
+				pp := fmt.Sprintf("P%d", pi)
+				startOffset[pp] = 3600 * time.Second
+				startOffset[pp+"/B0"] = 3590 * time.Second
+				startOffset[pp+"/B0/S0"] = 3580 * time.Second
+				startOffset[pp+"/B0/S0/A0"] = 3570 * time.Second
+				startOffset[pp+"/B0/S1"] = 3575 * time.Second
+				startOffset[pp+"/B0/S1/A0"] = 3565 * time.Second
+			}
 			planPath := fmt.Sprintf("P%d", pi)
 			set := func(path string, st workflow.Status, ended bool) error {
 				w := WriteRec{Path: path}
 				state := &workflow.State{Status: st, Start: t0}
 				if ended {
 					state.End = t0
+				}
+				if off, ok := startOffset[path]; ok {
+					// a long-running object: it started long ago (its End, if any, is the recent instant)
+					state.Start = t0.Add(-off)
 				}
 				switch o := objs[path].(type) {
 				case *workflow.Plan:
@@ -76,7 +92,7 @@ func bootStates(sc *Scenario) func(x *Exec) error {
 			var err error
 			switch state {
 			case "notstarted":
-			case "running", "running-old":
+			case "running", "running-old", "running-long":
 				// block 0 half done: sequence 0 finished, sequence 1 in flight without a durable result
 				for _, step := range []struct {
 					p  string
@@ -165,7 +181,7 @@ func (monC11) AtEnd(x *Exec) {
 		}
 		aged := sc.BootAgeSec > maxAge || state == "running-old"
 		switch {
-		case (state != "running" && state != "running-old") || sc.NoRecovery:
+		case (state != "running" && state != "running-old" && state != "running-long") || sc.NoRecovery:
 			if len(invs) > 0 {
 				rep("plan-not-to-be-resumed-was-executed", "invoked %v", invs)
 			}
@@ -402,6 +418,8 @@ func FamilyBoot(tier string) []*Scenario {
 		{"stale+live", []string{"running-old", "running"}},
 		{"live+stale+live", []string{"running", "running-old", "running"}},
 		{"stale+stale+live", []string{"running-old", "running-old", "running"}},
+		{"long-action-just-ended", []string{"running-long"}},
+		{"long-action-just-ended+stale", []string{"running-long", "running-old"}},
 		{"live*3", []string{"running", "running", "running"}},
 		{"live*4", []string{"running", "running", "running", "running"}},
 	} {
